@@ -37,14 +37,15 @@ Semantics of the subset (the translator's conventions):
     `D.flatten()` is the model helper `entries (M + N) D`, `np.sort(np.unique(l))` is `sortUnique l`;
     wasserstein's `D` is the model's `Mat α` (a list of rows); `D[a, b]` with two index arrays is `SrcLib.Matching.fancy`
     (`lookup` pair by pair; `none` = IndexError / arrays that do not pair up), `np.sum` is the model's `optSum`;
-  * dicts: `graph`, whose keys are `'{}'.format(i)` for the `i` of the enclosing `range` loop, is the list of its values
-    (`g['{}'.format(i)] = e` is `SrcLib.Matching.dictPut g i e`: appends for the next key, overwrites an old one, `none` otherwise);
+  * dicts: a dict that the function fills key by key (`graph`), with keys `'{}'.format(i)` for indices `i`, is the list of its
+    values (`g['{}'.format(i)] = e` is `SrcLib.Matching.dictPut g i e`: appends for the next key, overwrites an old one, `none`
+    otherwise); a dict that is only ever replaced as a whole (`matching`) is of the oracle's kind;
     a set built by a comprehension over a `range` is the increasing list of its members; the oracle's two-way dict (`'i' -> j` and
     `j -> 'i'`) is the list of its pairs `(i, j)` (`Matching`): `len(res)` is `2 * res.length`, `res['{}'.format(i)]` is
     `res.lookup i` (`none` = KeyError), `{}` is `[]`;
   * `len(l)`, `l.size` are `l.length`;  `l[-1]` is `l.getLast?`, `l[k]` is `l[k]?`;  `l[0:k]` is `l.take k`, `l[k:]` / `l[k::]` is
     `l.drop k`;  `int(a / b)` for a `Nat` `a` and a positive literal `b` is `a / b` (floor division of naturals: what the float
-    quotient truncates to below 2^53);  `bisect_left(range(n), x)` is `SrcLib.Matching.bisectLeftRange n x` (CPython's loop);
+    quotient truncates to below 2^53), and so is `a // b`;  `bisect_left(range(n), x)` is `SrcLib.Matching.bisectLeftRange n x` (CPython's loop);
   * `while c:` is a recursion on a fuel argument that counts executions of the body: the test is evaluated first, a false test
     returns the live names, a true test with fuel 0 is `none`; the fuel passed at loop entry is `len(ds) + 1` for the list `ds`
     named in the table;  `for i in range(n)` is a structural recursion over `List.range n`;  `continue` and falling off the body
@@ -52,7 +53,8 @@ Semantics of the subset (the translator's conventions):
     re-assigns that are read again (carried), and returns those of them that are read after the loop;
   * an `if` that is the last statement of its block, or has a `continue` inside, takes the statements behind it into both
     branches; any other `if` is an if-expression yielding the names its branches assign;
-  * `a > b` is written `b < a`, `a >= b` is `b ≤ a`, `and` is `∧`; `l.append(x)` is `l ++ [x]`;
+  * `a > b` is written `b < a`, `a >= b` is `b ≤ a`, `a < b` on matrix entries (which carry `≤` only) is `¬ b ≤ a`, `and` is `∧`;
+    `l.append(x)` is `l ++ [x]`;
   * the vectorised NumPy statements on the `(k, 3)` array `ret` are read row by row: `np.zeros((k, 3))` is `k` rows `(0, 0, 0)`,
     `ret[:, 0:2] = np.array(p)` / `ret[:, 2] = v` are `SrcLib.Matching.setCols01` / `setCol2` (`none` = the shapes differ),
     `ret[<mask>, c] = e` is `ret.map fun r => if <mask at r> then <r with column c := e> else r`, `ret[<mask>, :]` is
@@ -388,14 +390,14 @@ class Tr:
                 raise Shape("negation outside the subset: %s" % ast.unparse(n))
             return E("(%d : Int)" % v, TZ)
         if isinstance(n, ast.BinOp):
-            ops = {ast.Add: ("+", 65), ast.Mult: ("*", 70)}
+            ops = {ast.Add: ("+", 65), ast.Mult: ("*", 70), ast.FloorDiv: ("/", 70)}
             if type(n.op) not in ops:
                 raise Shape("operator outside the subset: %s" % ast.unparse(n))
             sym, p = ops[type(n.op)]
             a, b = self.expr(n.left, expect), self.expr(n.right, expect)
             if TZ in (a.ty, b.ty):
                 a, b = self.to_int(a), self.to_int(b)
-            if a.ty != b.ty or a.ty not in (TN, TZ):
+            if a.ty != b.ty or a.ty not in (TN, TZ) or (sym == "/" and (a.ty != TN or (const_int(n.right) or 0) <= 0)):
                 raise Shape("arithmetic outside the subset: %s" % ast.unparse(n))
             return E("%s %s %s" % (par(a, p), sym, par(b, p + 1)), a.ty, p)
         if isinstance(n, ast.Compare):
@@ -459,10 +461,10 @@ class Tr:
         if type(op) not in table:
             raise Shape("comparison outside the subset: %s" % ast.unparse(n))
         sym, swap = table[type(op)]
-        if a.ty == TX and sym != "≤" and not self.cfg.get("entry_lt"):
-            raise Shape("strict comparison of matrix entries (the model's entries have `≤` only): %s" % ast.unparse(n))
         if swap:
             a, b = b, a
+        if a.ty == TX and sym == "<":               # the models' entries carry `≤` only
+            return E("¬ %s ≤ %s" % (par(b, 51), par(a, 51)), TB, 40, "prop")
         return E("%s %s %s" % (par(a, 51), sym, par(b, 51)), TB, 50, "prop")
 
     def as_bool(self, c):
@@ -704,15 +706,9 @@ class Tr:
     def assign(self, s, t, v, kk):
         if isinstance(t, ast.Name):
             if isinstance(v, ast.Dict) and not v.keys:
-                ty = self.cfg.get("dicts", {}).get(t.id)
-                if ty is None:
-                    raise Shape("`%s = {}`: no representation is declared for this dict" % t.id)
-                return Let(self.bind(t.id, ty), "[]", kk())
+                return Let(self.bind(t.id, self.empty_kind(t.id, "dict")), "[]", kk())
             if isinstance(v, ast.List) and not v.elts:
-                ty = self.cfg.get("empties", {}).get(t.id)
-                if ty is None:
-                    raise Shape("`%s = []`: no element type is declared for this list" % t.id)
-                return Let(self.bind(t.id, ty), "[]", kk())
+                return Let(self.bind(t.id, self.empty_kind(t.id, "list")), "[]", kk())
             e = self.expr(v)
             pre = self.take_pre()
             return self.with_pre(pre, Let(self.bind(t.id, e.ty), e.t, kk()))
@@ -726,7 +722,7 @@ class Tr:
             return self.with_pre(pre, Let(n1, "%s.unzip.1" % par(e, 100), Let(n2, "%s.unzip.2" % par(e, 100), kk())))
         if isinstance(t, ast.Subscript) and isinstance(t.value, ast.Name):
             base = self.expr(t.value)
-            if is_list(base.ty) and base.ty[1] != ROW and t.value.id in self.cfg.get("dicts", {}):
+            if base.ty == Lst(Lst(TN)) and self.empty_kind(t.value.id, "dict") == base.ty:
                 i = self.key_index(t.slice)
                 e = self.expr(v)
                 if e.ty != base.ty[1]:
@@ -740,6 +736,25 @@ class Tr:
             if base.ty == Lst(ROW):
                 return self.row_assign(s, t, base, v, kk)
         raise Shape("assignment outside the subset: %s" % ast.unparse(s).split("\n")[0])
+
+    def empty_kind(self, name, kind):
+        """the representation of a name that is bound to `{}` / `[]`, read off its other uses in the function: a dict that the
+        function fills key by key (`x[k] = v` somewhere) is the list of its values (sets of indices); a dict that is only ever
+        replaced as a whole is of the oracle's kind (`{}` stands for "no matching yet"); a list to which 3-lists are appended
+        is a list of rows"""
+        scope = getattr(self.top, "scope", [])
+        if kind == "dict":
+            for st in scope:
+                if isinstance(st, ast.Assign) and any(isinstance(x, ast.Subscript) and isinstance(x.value, ast.Name) and x.value.id == name
+                                                      for x in st.targets):
+                    return Lst(Lst(TN))
+            return TW
+        for st in scope:
+            c = st.value if isinstance(st, ast.Expr) else None
+            if isinstance(c, ast.Call) and isinstance(c.func, ast.Attribute) and c.func.attr == "append" and isinstance(c.func.value, ast.Name) \
+                    and c.func.value.id == name and len(c.args) == 1 and isinstance(c.args[0], ast.List) and len(c.args[0].elts) == 3:
+                return Lst(ROW)
+        raise Shape("`%s = []`: the element type cannot be read off an `append([i, j, d])`" % name)
 
     def row_assign(self, s, t, base, v, kk):
         k = t.slice
@@ -992,6 +1007,7 @@ def translate(fn, cfgs):
         try:
             stmts = pick_region(body, cfg)
             tr = Tr(cfg)
+            tr.scope = [x for x in ast.walk(fn) if isinstance(x, ast.stmt)]
             binders = []
             for py, ty, lean in cfg["params"]:
                 binders.append((tr.bind(py, ty), lean_ty(ty, cfg)))
@@ -1054,7 +1070,6 @@ BN_FULL = "[Sub α] [Div α] [Neg α] [Zero α] [OfNat α 2] [Max α] [LE α] [D
 WS_FULL = "[Add α] [Sub α] [Mul α] [Neg α] [Zero α]"
 BN = dict(file="bottleneck_search", func="bottleneck", pyparams=["dgm1", "dgm2", "matching"], matrix="D", flag="return_matching",
           variables="[LE α] [DecidableLE α]", full_variables=BN_FULL, entry_ty="Ext α", shape={"D": ("M", "N")},
-          dicts={"matching": TW, "graph": Lst(Lst(TN))}, empties={"matchidx": Lst(ROW)},
           oracle_call=("HopcroftKarp", "maximum_matching"), alias={"HopcroftKarp": "oracle"})
 WS = dict(file="wasserstein_assign", func="wasserstein", pyparams=["dgm1", "dgm2", "matching"], matrix="D", flag="matching",
           variables="[Add α] [Zero α]", full_variables=WS_FULL, entry_ty="Option α", zero_entry="(some 0 : Option α)",
@@ -1409,3 +1424,10 @@ def render_file(key, root):
         o.append(not_translated_comment(sorted(nt.items())))
     o.append("end %s\n" % ns)
     return "\n".join(o), info
+
+
+from . import py2lean as _base  # noqa: E402   (registers this module's files when it is imported first)
+if hasattr(_base, "MATCHING_KEYS"):
+    for _k, _v in FILES.items():
+        _base.FILES[_k] = _v[:5]
+        _base.MATCHING_KEYS.add(_k)
